@@ -63,8 +63,9 @@ def generate(rng, tier):
         yield f"hdr {hx(rng.randbytes(ln))}", "hdr-short"
     # re-framing of constructed packets
     n = 30 if tier == "quick" else 200
-    for _ in range(n):
-        p = pu.mk_packet(rng)
+    sweep = [1, 2, 255, 256, 257, 511, 512, 513, 1023, 1024, 1025, 1536, 4096, 32767, 32768, 32769, 65535, 65536]
+    for i in range(n + len(sweep)):
+        p = pu.mk_packet(rng, sweep[i] if i < len(sweep) else None)
         kind = rng.choice(["bytes", "file", "socket"])
         chunks = [p] if kind == "bytes" else pu.cut(rng, p, rng.choice(["one", 1, 5, "rand"]) if len(p) < 400 else "rand")
         yield pu.frame_line(0, pu.REAL_TRIM, kind, -1 if len(chunks) <= 1 else 0, chunks), "reframe"
